@@ -39,22 +39,23 @@ def r1_projections(ctx):
     """C16.R1: consumers, inputs and outputs are recorded exactly as the edges state."""
     repo = ctx.repo
     A, B, C = "A", "B", "C"
-    edges = [_edge(A, "0", B, kw="x"), _edge(A, "0", C, ps=0), _edge(B, "1", C, kw="y")]
+    # A.0 has two consumers; C reads two different outputs of A (parallel edges between one pair of tasks) and one of B
+    edges = [_edge(A, "0", B, kw="x"), _edge(A, "0", C, ps=0), _edge(B, "1", C, kw="y"), _edge(A, "1", C, kw="z")]
     fd = repo.func(f"{VW}.dependants")
     ctx.analysed(fd.qual)
     ps = Interp(repo).explore(fd, args={"edges": list(edges)})
     ctx.evals(len(ps))
-    want = {dsid(A, "0"): {B, C}, dsid(B, "1"): {C}}
+    want = {dsid(A, "0"): {B, C}, dsid(B, "1"): {C}, dsid(A, "1"): {C}}
     got = _as_plain(ps[0].exit[1]) if len(ps) == 1 and ps[0].exit[0] == "return" else None
     if got is None or {k: set(v) for k, v in got.items() if v} != want:
-        ctx.violation("C16.R1", fd.qual, loc(fd), "consumers per dataset", f"edges A.0->B, A.0->C, B.1->C: dependants = {vkey(got)[:160]}, expected {vkey(want)}")
+        ctx.violation("C16.R1", fd.qual, loc(fd), "consumers per dataset", f"edges A.0->B, A.0->C, B.1->C, A.1->C: dependants = {vkey(got)[:160]}, expected {vkey(want)}")
     else:
         ctx.ok("C16.R1", loc(fd), "dependants: every edge adds its sink to its source dataset's consumers")
     fp = repo.func(f"{VW}.param_source")
     ctx.analysed(fp.qual)
     ps = Interp(repo).explore(fp, args={"edges": list(edges)})
     ctx.evals(len(ps))
-    want = {B: {"x": dsid(A, "0")}, C: {0: dsid(A, "0"), "y": dsid(B, "1")}}
+    want = {B: {"x": dsid(A, "0")}, C: {0: dsid(A, "0"), "y": dsid(B, "1"), "z": dsid(A, "1")}}
     got = _as_plain(ps[0].exit[1]) if len(ps) == 1 and ps[0].exit[0] == "return" else None
     if got is None or {k: dict(v) for k, v in got.items()} != want:
         ctx.violation("C16.R1", fp.qual, loc(fp), "inputs per task", f"edges A.0->B[x], A.0->C[0], B.1->C[y]: param_source = {vkey(got)[:200]}, expected {vkey(want)}")
@@ -95,12 +96,12 @@ def r1_projections(ctx):
     eo = {k: set(v) for k, v in _as_plain(f_.get("edge_o", {})).items() if v}
     ei = {k: set(v) for k, v in _as_plain(f_.get("edge_i", {})).items() if v}
     to = {k: set(v) for k, v in _as_plain(f_.get("task_o", {})).items()}
-    want_eo = {dsid(A, "0"): {B, C}, dsid(B, "1"): {C}}
-    want_ei = {B: {dsid(A, "0")}, C: {dsid(A, "0"), dsid(B, "1")}}
+    want_eo = {dsid(A, "0"): {B, C}, dsid(B, "1"): {C}, dsid(A, "1"): {C}}
+    want_ei = {B: {dsid(A, "0")}, C: {dsid(A, "0"), dsid(B, "1"), dsid(A, "1")}}
     want_to = {A: {dsid(A, "0"), dsid(A, "1")}, B: {dsid(B, "1")}, C: {dsid(C, "0")}, "D": {dsid("D", "0")}}
     for nm, got_, want_ in (("edge_o (consumers of each dataset)", eo, want_eo), ("edge_i (inputs of each task)", ei, want_ei), ("task_o (outputs of each task)", to, want_to)):
         if got_ != want_:
-            ctx.violation("C16.R1", fi.qual, loc(fi), nm.split(" ")[0], f"model job (A.0->B, A.0->C, B.1->C; D isolated): {nm} = {vkey(got_)[:200]}, expected {vkey(want_)[:200]}")
+            ctx.violation("C16.R1", fi.qual, loc(fi), nm.split(" ")[0], f"model job (A.0->B, A.0->C, B.1->C, A.1->C; D isolated): {nm} = {vkey(got_)[:200]}, expected {vkey(want_)[:200]}")
         else:
             ctx.ok("C16.R1", loc(fi), f"precompute: {nm} as the edges state")
     # what the component search is given: every task, and task-level projections of the edges
